@@ -87,7 +87,7 @@ func TestC11Concurrent(t *testing.T) {
 	ev := Ev("C11")
 	ev.SetRule("rapid: 4-8 goroutines each running 4-14 generated operations (Index, Delete, Batch, Search with and without a deadline, Search with a context cancelled before or during the call, Document, DocCount, Fields, FieldDict (closed), Stats/StatsMap, ForceMerge, CopyTo, Set/GetInternal) with one Close issued by a generated goroutine at a generated position, on scorch disk/memory and upsidedown gtreap/boltdb, under a seeded delay plan and GOMAXPROCS in {2,4,16}; the binary is built with -race. " +
 		"Oracle: no goroutine panics, no async error callback, the race detector stays silent (non-zero exit with a race log), every call returns within the 60 s watchdog, Close returns, every call started after Close returned yields ErrorIndexClosed, calls overlapping Close yield a result or that error, a search cancelled before it starts returns the context error, a search cancelled in flight returns a result or the context error and the next search works; 2 s after Close no goroutine has a frame in bleve and no fd/mmap of the index remains; " +
-		"three cases in four on scorch disk aim Close at a window (the first background goroutines reaching a drawn hook point - mostly the hand-off points before an introduction - wait there until Close has started; for merge points two goroutines begin with a batch and a forced merge); one case in four on scorch disk uses a maintenance profile (mostly CopyTo, Batch, ForceMerge; Close last) so that backups overlap each other and the persister's clean-up; non-trivial = >=4 goroutines ran and Close started while >=1 write or >=1 search was in flight, or two backups overlapped")
+		"three cases in four on scorch disk aim Close at a window (the first background goroutines reaching a drawn hook point - mostly the hand-off points before an introduction - wait there until Close has started; for merge points two goroutines begin with a batch and a forced merge); through an index alias (TestC11Alias): 2-5 goroutines search, read, write to and re-arrange (Swap/Add/Remove) an alias of 1-3 member indexes while members are closed under it and the alias itself is closed; every call must return within 60 s, nothing may panic, the race detector stays silent; one case in four on scorch disk uses a maintenance profile (mostly CopyTo, Batch, ForceMerge; Close last) so that backups overlap each other and the persister's clean-up; non-trivial = >=4 goroutines ran and Close started while >=1 write or >=1 search was in flight, or two backups overlapped")
 	ev.Assume("schedules are sampled, not enumerated; data races are found only when the detector sees both accesses in one run")
 	checkPropN(t, "C11", 80, func(t *rapid.T) {
 		cfg := Config{Engine: rapid.SampledFrom([]string{EngScorchDisk, EngScorchDisk, EngScorchMem, EngUDGtreap, EngUDBolt}).Draw(t, "engine")}
